@@ -90,23 +90,49 @@ def run(ctx):
     if fused:
         # a separator must be emitted between op and value whenever the operand is itself a prefix-operator node
         seps = [(n, o) for (n, k, o) in emits if k == "sep"]
+        opn = [x for (x, k, _) in emits if k == "op"][0]
+        vn = [x for (x, k, _) in emits if k == "value"][0]
         ok = False
         detail = "operator and operand are streamed back to back"
-        for (n, o) in seps:
-            opn = [x for (x, k, _) in emits if k == "op"][0]
-            vn = [x for (x, k, _) in emits if k == "value"][0]
-            same_chain = (n is opn) or (n is vn)
-            if same_chain:
-                ch = [noid(render(x, False)) for x in stream_chain(n)[1:]]
-                ok = True     # op << ' ' << value in one chain
-                detail = "separator inside the chain %s" % ch
-            else:
-                fs = {(noid(k), pol) for (k, pol) in cfg.facts_at(n, IN)}
-                guarded = any(pol and "leftUnary" in k and "value" in k for (k, pol) in fs)
-                ok = cfg.before(opn, n) and (guarded or not fs)
-                # and the value is emitted after it on every path
-                ok = ok and cfg.find_path(cfg.position(n), "exit", lambda b, i, e: e == vn["i"]) is None
-                detail = "a space is emitted between operator and operand %s" % ("when the operand is a prefix-operator node" if guarded else "always")
+        if opn is vn:
+            ch = [k for (x, k, _) in emits if x is opn]
+            ok = "sep" in ch and ch.index("op") < ch.index("sep") < ch.index("value")
+            detail = "separator inside the chain"
+        elif cfg.before(opn, vn):
+            # every separator-free path from the operator to the operand must exclude each fusing pair (u, t):
+            # decided per path from its branch facts, three-valued (a fact the rule cannot interpret makes the verdict unknown)
+            sep_ids = {n["i"] for (n, _) in seps}
+            paths = cfg.enum_paths(cfg.position(opn), lambda b, i, e: e == vn["i"], lambda b, i, e: e in sep_ids)
+            bad, unknown = [], []
+            for p in paths:
+                facts = [(noid(k).replace(" ", ""), pol) for (k, pol) in cfg.path_edge_facts(p)]
+                for (u, t, lm) in fused:
+                    feasible = True
+                    for (k, pol) in facts:
+                        if "this->value->type()" in k and "leftUnary" in k and "&" in k and "&&" not in k and "||" not in k:
+                            if not pol:
+                                feasible = False      # operand is not a prefix-operator node on this path
+                        elif "opType()==" in k and k.count("opType()") == 2 and "&&" not in k and "||" not in k:
+                            if pol != (u == t):
+                                feasible = False      # path requires equal / different operators
+                        elif "&&" in k or "||" in k:
+                            continue                  # whole-condition fact: its atoms are on the path as well
+                        elif feasible:
+                            feasible = None
+                    if feasible is True:
+                        bad.append((u, t, lm))
+                    elif feasible is None:
+                        unknown.append((u, t, sorted(k for k, _ in facts)))
+            if unknown and not bad:
+                raise AnalysisBroken("leftUnaryOpNode::print: separator guarded by a condition the rule cannot interpret: %s" % unknown[0][2])
+            ok = bool(seps) and not bad
+            detail = "every path that prints operator and operand back to back excludes a prefix-operator operand (%d paths)" % len(paths)
+            if bad:
+                uniq = []
+                for x in bad:
+                    if x not in uniq:
+                        uniq.append(x)
+                fused = sorted(uniq, key=lambda x: (x[0] == x[1], x[0], x[1])) + [x for x in fused if x not in uniq]
         R.ob("C15-R1", ok, lu.q, "separator between prefix operator and a prefix-operator operand (%d fusing pairs, e.g. %s)" % (len(fused), ", ".join("%s %s" % (u, t) for u, t, _ in fused[:4])),
              "%s:%d" % (lu.relfile, lu.d["line"]), detail if ok else
              "`%s %sx` is printed as `%s%sx`, which tokenises as %s: the printed program differs from the parsed one" % (fused[0][0], fused[0][1], fused[0][0], fused[0][1], fused[0][2]))
